@@ -190,10 +190,18 @@ Definition reg_new_factory (sh : shape) (we hf : bool) (o : oracle) (s : st) : s
   | None =>
       match sh_ret sh with
       | RPlugin =>
-          (* c.newPlugin.Type() == factoryType *)
-          if is_nocfg (sh_cfg sh) && is_iface (sh_rt sh) && Bool.eqb (sh_cerr sh) we
-          then (s0, ev0, CrOk FPluginDirect)
-          else (s0, ev0, CrOk (FPluginWrap cr))
+          (* registry.go: a plugin constructor's config is made and filled on every factory call;
+             one is made and filled right now too (and dropped), so that an invalid config fails
+             the creation of the factory and not its first call *)
+          let '(s1, ev1, tr) := if cr then get_conf sh hf o s0 else (s0, [], inr ANone) in
+          match tr with
+          | inl e => (s1, ev0 ++ ev1, CrErr e)
+          | inr _ =>
+              (* c.newPlugin.Type() == factoryType *)
+              if is_nocfg (sh_cfg sh) && is_iface (sh_rt sh) && Bool.eqb (sh_cerr sh) we
+              then (s1, ev0 ++ ev1, CrOk FPluginDirect)
+              else (s1, ev0 ++ ev1, CrOk (FPluginWrap cr))
+          end
       | RFactory =>
           let '(s1, ev1, rc) := if cr then get_conf sh hf o s0 else (s0, [], inr ANone) in
           match rc with
